@@ -78,6 +78,23 @@ def poolStep (st : PoolSt) (op : List String) (env : List (Option Nat)) : PoolSt
         let np : Pool := { q with list := nl }
         let old : Pool := { q with list := ol, arena := q.arena.movedFrom, leak := 0 }
         ({ st with pool := some np, pool2 := none, poolMoved := some old }, "done", upStr ev, np.str)
+    | "swap3" :: rest =>
+      -- `tmp(move(a)); a = move(b); b = move(tmp); ~tmp`: the two pools exchange arena, free list and leak count; each list is
+      -- re-based onto the list object it ends up in (cursors reset, as in every move); no upstream event
+      match st.pool2 with
+      | none => (st, "no-object", "", "-")
+      | some q =>
+        let rebase (l : AnyList) (b e pp : String) : AnyList := match l with
+          | .ord l => .ord (l.moveTo (kvNat rest b) (kvNat rest e)).1
+          | .small l => .small { l with P := kvNat rest pp, allocChunk := kvNat rest pp, deallocChunk := kvNat rest pp }
+          | .free l => .free l
+        let np : Pool := { q with list := rebase q.list "B" "E" "P" }
+        let nq : Pool := { p with list := rebase p.list "B2" "E2" "P2" }
+        ({ st with pool := some np, pool2 := some nq }, "done", "", np.str)
+    | ["peek2"] =>
+      match st.pool2 with
+      | none => (st, "no-object", "", "-")
+      | some q => (st, "done", "", q.str)
     | ["alloc_node"] => presPool st (p.allocateNode cfg env)
     | ["try_alloc_node"] => presPool st p.tryAllocateNode
     | ["alloc_array", n] => presPool st (p.allocateArray cfg (nat! n) env)
